@@ -9,20 +9,27 @@ swallowed; `writeInitParams` 797-821).
         if data != self.persistentData:
             ... tmpfile = <target> + '.tmp' ...
             try:
-                with open(tmpfile, 'w', encoding='utf-8') as f:               # op 0            open
-                    json.dump(data, f, indent=2)                              # ops 1..n-1      f.write(chunk) each
-                    f.write('\n')                                             # op n            f.write
-                                                                              # op n+1          f.close  (__exit__)
+                with open(tmpfile, 'w', encoding='utf-8') as f:               # op 0            open (create / truncate)
+                    json.dump(data, f, indent=2)                              #   f.write(chunk) each: into the buffers of the
+                    f.write('\n')                                             #   text file; ops 1..n = what the buffered writer
+                                                                              #   hands to the descriptor, whenever it does
+                                                                              #   (at the latest when `__exit__` flushes)
+                                                                              # op n+1          close of the descriptor (__exit__)
                 os.rename(tmpfile, self.persistentFile)                       # op n+2          rename
                 self.persistentData = data                                    # believed := data, only now
             finally:
                 try: os.remove(tmpfile)                                       # op n+3          remove
                 except FileNotFoundError: pass
 
-The file system is a partial map `Path ⇀ Bytes`.  Durability is modelled at the granularity of these
-Python-level operations: every `write` is taken to reach the file immediately (the worst case for a
-crash), `rename` is atomic, nothing is reordered (the code issues no fsync; power-loss reordering of
-data and metadata is outside this model).
+The file system is a partial map `Path ⇀ Bytes`.  Durability is modelled at the granularity of the operations that
+reach the operating system: `open`, every `write` on the file descriptor, its `close`, `rename`, `remove`.  `f` is
+Python's buffered text file: the text of the snapshot reaches the descriptor in chunks chosen by the buffer layers
+(for a small file: one write, issued by `__exit__`), so `chunks` below is *any* list whose concatenation is the text -
+the theorems quantify over it, the driver receives the chunking recorded from Python's `io` for the buffer sizes in
+use.  What matters for the order of operations is only that all writes precede the `close`, and the `close` precedes
+the `rename` (the `with` block ends before `os.rename`).  After a failing write the file object is closed on the way
+out and may write again (`Fault.after`).  `rename` is atomic, nothing is reordered (the code issues no fsync; page-cache
+write-back and power-loss reordering of data and metadata are outside this model).
 -/
 namespace Frappy.Persist
 
@@ -79,11 +86,16 @@ def applyEvs (fs : FS P) (evs : List (Ev P)) : FS P := evs.foldl applyEv fs
 def saveOps (tgt tmp : P) (chunks : List Bytes) : List (FsOp P) :=
   .openTrunc tmp :: (chunks.map (.write tmp) ++ [.close tmp, .rename tmp tgt, .remove tmp])
 
-/-- a single injected error: operation number `idx` (0 = the `open`) of the save raises `OSError`; if it
-is a write, `part` is what it wrote before failing -/
+/-- an injected error: operation number `idx` (0 = the `open`) of the save raises `OSError`.  If it is a write, `part`
+is what it wrote before failing, and `after` are the writes the file object still issues when it is closed on the way
+out - Python's buffered writer keeps what it could not write and tries again in `close()`; what exactly it writes
+then is its business (any list of chunks), and each of these writes may fail in turn (`true`: a full disk does not
+go away): the pair is (what reached the file, it raised). -/
 structure Fault where
   idx : Nat
   part : Bytes
+  after : List (Bytes × Bool)
+  cleanup : Bool          -- a second fault in the clean-up: the `os.remove` of the `finally` fails as well (not FileNotFoundError)
   deriving DecidableEq, Repr
 
 def okEv (o : FsOp P) : Ev P := ⟨o, false⟩
@@ -102,32 +114,42 @@ def tick : Option Nat → Option Nat
   | some (j + 1) => some j
   | _ => none
 
+/-- the `os.remove(tmpfile)` of the `finally` after something else has failed; `cl = true`: it fails, too (and its error
+is the one that leaves the call) -/
+def rmEv (tmp : P) (cl : Bool) : Ev P := ⟨.remove tmp, cl⟩
+
 /-- after the last write: `__exit__` closes, `os.rename`, then `finally: os.remove`.  A failing close or
 rename skips to the `finally`; a failing remove (other than FileNotFoundError) propagates. -/
-def tailRun (tgt tmp : P) : Option Nat → Run P
-  | some 0 => ⟨[badEv (.close tmp), okEv (.remove tmp)], false, true⟩
-  | some 1 => ⟨[okEv (.close tmp), badEv (.rename tmp tgt), okEv (.remove tmp)], false, true⟩
+def tailRun (tgt tmp : P) (cl : Bool) : Option Nat → Run P
+  | some 0 => ⟨[badEv (.close tmp), rmEv tmp cl], false, true⟩
+  | some 1 => ⟨[okEv (.close tmp), badEv (.rename tmp tgt), rmEv tmp cl], false, true⟩
   | some 2 => ⟨[okEv (.close tmp), okEv (.rename tmp tgt), badEv (.remove tmp)], true, true⟩
   | _ => ⟨[okEv (.close tmp), okEv (.rename tmp tgt), okEv (.remove tmp)], true, false⟩
 
-/-- the `f.write` calls of `json.dump` and the final newline; a failing write leaves the `with` block
-(close) and then the `finally` (remove) -/
-def writesRun (tgt tmp : P) (part : Bytes) : List Bytes → Option Nat → Run P
-  | [], k => tailRun tgt tmp k
+/-- the events of a write that failed and what follows it: the `with` block is left (the file object may write
+again what it still holds, then closes), then the `finally` (remove) -/
+def failedWrite (tmp : P) (part : Bytes) (after : List (Bytes × Bool)) (cl : Bool) : List (Ev P) :=
+  badEv (.write tmp part) :: (after.map (fun c => ⟨.write tmp c.1, c.2⟩) ++ [okEv (.close tmp), rmEv tmp cl])
+
+/-- the writes by which the text of `json.dump` and the final newline reach the file descriptor (inside the `with`
+block or when `__exit__` flushes: both come before the `close` of the descriptor); a failing write leaves the
+`with` block -/
+def writesRun (tgt tmp : P) (part : Bytes) (after : List (Bytes × Bool)) (cl : Bool) : List Bytes → Option Nat → Run P
+  | [], k => tailRun tgt tmp cl k
   | c :: cs, k =>
     match k with
-    | some 0 => ⟨[badEv (.write tmp part), okEv (.close tmp), okEv (.remove tmp)], false, true⟩
-    | _ => (writesRun tgt tmp part cs (tick k)).cons (okEv (.write tmp c))
+    | some 0 => ⟨failedWrite tmp part after cl, false, true⟩
+    | _ => (writesRun tgt tmp part after cl cs (tick k)).cons (okEv (.write tmp c))
 
 /-- one call of the writing part of `__save_params` under an optional fault; a failing `open` goes
 straight to the `finally` -/
 def saveRun (tgt tmp : P) (chunks : List Bytes) (fault : Option Fault) : Run P :=
   match fault with
-  | none => (writesRun tgt tmp [] chunks none).cons (okEv (.openTrunc tmp))
+  | none => (writesRun tgt tmp [] [] false chunks none).cons (okEv (.openTrunc tmp))
   | some f =>
     match f.idx with
-    | 0 => ⟨[badEv (.openTrunc tmp), okEv (.remove tmp)], false, true⟩
-    | j + 1 => (writesRun tgt tmp f.part chunks (some j)).cons (okEv (.openTrunc tmp))
+    | 0 => ⟨[badEv (.openTrunc tmp), rmEv tmp f.cleanup], false, true⟩
+    | j + 1 => (writesRun tgt tmp f.part f.after f.cleanup chunks (some j)).cons (okEv (.openTrunc tmp))
 
 end fs
 
@@ -223,6 +245,7 @@ structure MState (N V : Type) where
   writeDict : List (String × V)
   believed : Dict N                      -- persistentData
   initData : List (String × V)
+  hooks : List String                    -- the names `n` for which `paramCallbacks[n]` holds `self.saveParameters`
 
 /-- `{k: v.export_value() for persistent parameters}` -/
 def exportAll {P N V : Type} (env : Env P N V) (ps : List (Param V)) : Dict N :=
@@ -257,14 +280,17 @@ def doSave (env : Env P N V) (ms : MState N V) (fault : Option Fault) : StepOut 
 def saveParameters (env : Env P N V) (ms : MState N V) (fault : Option Fault) : StepOut P N V :=
   if ms.writeDict.isEmpty then doSave env ms fault else ⟨ms, [], [], false⟩
 
-/-- `announceUpdate` of a (valid, changed) value: store, then the `auto` callback; exceptions of
-callbacks are swallowed (modulebase 547-551) -/
+/-- `announceUpdate` of a valid value (modulebase 547-583): store it, then call what is registered in
+`paramCallbacks[pname]` - for persistence that is `saveParameters`, registered by `addCallback` in
+`PersistentMixin.__init__` for the `auto` parameters.  An exception of a callback is swallowed (`except Exception:
+pass`), and the callback **stays registered**: `hooks` is not touched, so a save that failed is tried again at the
+next update. -/
 def announce (env : Env P N V) (ms : MState N V) (name : String) (v : V) (fault : Option Fault) :
     StepOut P N V :=
   let ms1 := { ms with params := setValue ms.params name v }
   match findParam ms.params name with
-  | some p =>
-    if p.persistent && p.auto then
+  | some _ =>
+    if ms.hooks.contains name then
       let o := saveParameters env ms1 fault
       ⟨o.ms, o.evs, [], false⟩
     else ⟨ms1, [], [], false⟩
@@ -319,6 +345,10 @@ def loadParameters (env : Env P N V) (ms : MState N V) (file : Option Bytes) (fa
 def factoryReset (env : Env P N V) (ms : MState N V) (fault : Option Fault) : StepOut P N V :=
   writeInit env { ms with writeDict := ms.initData.foldl (fun d e => dset d e.1 e.2) ms.writeDict } fault
 
+/-- `addCallback(pname, self.saveParameters)` for every parameter whose flag is `auto` (84-86) -/
+def autoNames (ps : List (Param V)) : List String :=
+  (ps.filter (fun p => p.persistent && p.auto)).map (·.name)
+
 /-- `PersistentMixin.__init__` (76-95) after `Module.__init__` produced `ps` (values = configured value or
 default, `given` set) and `wd0` (the configured values to be written) -/
 def startUp (env : Env P N V) (ps : List (Param V)) (wd0 : List (String × V)) (file : Option Bytes)
@@ -330,7 +360,8 @@ def startUp (env : Env P N V) (ps : List (Param V)) (wd0 : List (String × V)) (
     { params := ps1,
       writeDict := ps1.foldl startWrite wd0,
       believed := raw,
-      initData := (ps.filter (·.persistent)).map (fun p => (p.name, p.value)) }
+      initData := (ps.filter (·.persistent)).map (fun p => (p.name, p.value)),
+      hooks := autoNames ps }
   doSave env ms fault
 
 inductive Act (V : Type)
@@ -339,6 +370,7 @@ inductive Act (V : Type)
   | writeInit                           -- writeInitParams()
   | load                                -- loadParameters()
   | factoryReset
+  | seterr (name : String)              -- announceUpdate(name, err=e): a read error (or a value the datatype refuses)
 
 /-- one action of a history on the world (module state, disk) -/
 def act (env : Env P N V) (ms : MState N V) (file : Option Bytes) (a : Act V) (fault : Option Fault) :
@@ -349,6 +381,9 @@ def act (env : Env P N V) (ms : MState N V) (file : Option Bytes) (a : Act V) (f
   | .writeInit => writeInit env ms fault
   | .load => loadParameters env ms file fault
   | .factoryReset => factoryReset env ms fault
+  -- the value stays; the callbacks are called with two arguments `(value, err)`, which `saveParameters(self, _=None)`
+  -- does not take: the `TypeError` is swallowed like any exception of a callback, nothing is saved, the callback stays
+  | .seterr _ => ⟨ms, [], [], false⟩
 
 structure World (P N V : Type) where
   ms : MState N V
